@@ -91,7 +91,7 @@ func idOf(root *simrt.Inode, abs string) (fileID, bool) {
 var profC02 = Profile{
 	MaxProcs: 5, MaxItems: 3, Bufsizes: []int{0, 1, 2}, MaxSlots: 4,
 	Params: true, MultiOut: true, FanIn: true, FanOut: true, NoPort: true, Custom: true,
-	Subdirs: true, Cores: true, TwoSources: true, Zip: true, ParamSrc: true, EmptyOuts: true, Joins: true,
+	Subdirs: true, ParentAbs: true, NoOtherDevice: true, Cores: true, TwoSources: true, Zip: true, ParamSrc: true, EmptyOuts: true, Joins: true,
 }
 
 func init() {
